@@ -810,6 +810,11 @@ fn call_step_on(g: &mut FnGhost, k: u32, now: u64, out: &mut StepOut, worker: Op
                 }
             };
             out.findings.push(MFinding { property: p, monitor: m.into(), detail: format!("{}({k}) ran its body although an unexpired entry was stored", f.fn_name) });
+            if p == "C06" && matches!(fam, "result" | "cache_if") {
+                // also a matter of the family's own property: the stored Ok / accepted result was not reused
+                let (p2, m2): (&'static str, &str) = if fam == "result" { ("C09", "ok-not-reused") } else { ("C10", "accepted-result-not-reused") };
+                out.findings.push(MFinding { property: p2, monitor: m2.into(), detail: format!("{}({k}) ran its body although an unexpired entry was stored", f.fn_name) });
+            }
         }
         if !executed && (had.is_none() || must_expire) {
             let (p, m): (&'static str, &str) = if must_expire { ("C06", "expired-served") } else { ("C01", "served-without-entry") };
@@ -931,6 +936,10 @@ fn call_step_on(g: &mut FnGhost, k: u32, now: u64, out: &mut StepOut, worker: Op
                 let expect = f.limit.map_or(0, |n| cand.len().saturating_sub(n));
                 if removed != expect && !(removed < expect && f.limit.map_or(false, |n| post.len() <= n)) {
                     out.findings.push(MFinding { property: "C04", monitor: if removed > expect { "needless-eviction" } else { "missing-eviction" }.into(), detail: format!("{}({k}): keys {:?} -> {:?} with limit {:?}", f.fn_name, pre, post, f.limit) });
+                    if removed > expect && f.ttl.is_some() {
+                        // (already-expired entries were excluded above) an unexpired entry went without eviction or invalidation
+                        out.findings.push(MFinding { property: "C06", monitor: "unexpired-entry-dropped".into(), detail: format!("{}({k}): keys {:?} -> {:?}: an entry younger than its ttl disappeared although the limit {:?} did not require it", f.fn_name, pre, post, f.limit) });
+                    }
                 }
             }
         }
@@ -1424,7 +1433,13 @@ pub fn suites_for(property: &str, thorough: bool) -> Vec<Suite> {
                 if f.ttl.is_some() {
                     a.push(MOp::Tick);
                 }
-                out.push(Suite { f, f2: None, group: vec![], wash: false, prune_noops: false, alphabet: a, depth: if f.ttl.is_some() { d(5, 6) } else { d(4, 5) } });
+                // store, two steps of ageing, failed refresh, store of another key, call it again: six steps
+                let depth = match (f.ttl.is_some(), f.limit.is_some()) {
+                    (true, true) => d(6, 7),
+                    (true, false) => d(5, 6),
+                    _ => d(4, 5),
+                };
+                out.push(Suite { f, f2: None, group: vec![], wash: false, prune_noops: false, alphabet: a, depth });
             }
         }
         "C10" => {
